@@ -27,6 +27,7 @@ def run(ck):
     ck.rule('C14.f', 'sink_put_chunk, through which the *_to_sink encoders emit, offers exactly the octets of the region it was given, in order, retrying in place (C17.a-d re-evaluated)')
     ck.rule('C14.e', 'the buffer and chunk-list source drivers the octet-wise decoder reads through deliver every unread octet in order and report the end of data only when no chunk is left (C17.g, C17.h re-evaluated): buffer decoder and source decoder see the same octets')
     ck.rule('C14.g', 'decoding from a Source is a function of the octets it delivers: no decoder keeps progress of one value in the Source object beyond the return that ends it (resuming after -EINTR / -EAGAIN excepted)')
+    ck.rule('C14.h', 'the source decoder reads each octet through the exact-count reader (repeats on 0 / -EINTR / -EAGAIN) and uses it only after the read succeeded: it sees the same octets as the buffer decoder however the source fragments its reads')
     ck.rule('C14.a', 'varint_decode: every octet read buf[offset+i] is proved inside the buffer (offset+i+1 <= used/size) by the path guards; failing paths leave the buffer untouched; offset advances by exactly the consumed count')
     ck.rule('C14.b', 'sibling agreement: buffer decoder and source decoder use the same data mask, shift step, terminator test, bound and error code; encoder and length query the same shift step / stop test / counting')
     ck.rule('C14.c', 'constants: 7 data bits, mask 0x7f, continuation 0x80, max octets ceil(32/7)=5 and ceil(64/7)=10 (compiler-evaluated)')
@@ -54,6 +55,7 @@ def run(ck):
     rule_c(ck, u)
     rule_d(ck, u)
     rule_source_state(ck, u, eng)
+    rule_source_reader(ck, u, eng, P)
     from .common import reevaluate
     reevaluate(ck, 'C14.f', 'c17', lambda r, k: r in ('C17.a', 'C17.b', 'C17.c', 'C17.d') and k.startswith(('sink_put_chunk', 'sink_adapt')),
                'the *_to_sink encoders hand their scratch buffer to sink_put_chunk: exactly its used octets reach the sink, from its start, whatever the driver answers')
@@ -149,8 +151,12 @@ def loop_features(paths, valuekey_pred):
                 # error of the exhausted bound (loop exit) vs. refusals inside the loop
                 exhausted = any(c[0] == 'cmp' and c[1] in ('<=', '<') and c[2] == ('v', 'maxoctets') for c in p.cond_terms())
                 feats['err' if exhausted else 'err_inloop'].add(p.ret[1])
-            elif p.ret[0] != 'call':
-                r = p.ret[2] if p.ret[0] == 'cast' else p.ret
+            else:
+                r = p.ret
+                while r[0] == 'cast':
+                    r = r[2]
+                if r[0] == 'call':
+                    continue                      # a reader's error, handed on (whatever its integer type)
                 l = L(r)
                 feats['ret_ok'].add(str(Lin({'i': sum(l.t.values())}, l.c)) if len(l.t) == 1 else fmt(r))
     return feats
@@ -403,6 +409,44 @@ def rule_source_state(ck, u, eng):
     ck.verdict(bad is None, 'C14.g', 'source-state', UNIT,
                ('the decoders keep nothing in the Source object (%d functions taking a Source)' % len(fns)) if (bad is None and nst == 0) else
                ('progress kept in the Source object (%d fields) is back to its constructed value on every return that ends an item' % nst) if bad is None else bad)
+
+
+def rule_source_reader(ck, u, eng, P):
+    """C14.h: the source decoder takes its octets through the exact-count reader (source_get_chunk with count 1), as the
+    fixed-width prefixes of length-prefix.c and sts_cbc do, and looks at an octet only after the reader reported success.
+    The one-shot source_get_octet hands the driver's answer through: 0 ("nothing moved, ask again") is then taken for a
+    delivered octet (an uninitialised one), and -EINTR / -EAGAIN end the value after part of it was consumed - the
+    repeated call decodes the rest as a value of its own, and a length-prefixed stream is out of step from there on.
+    Buffer decoder and source decoder then disagree on the same octets for a source that fragments its reads."""
+    fn = 'varint_from_source'
+    ps = P.get(fn)
+    if ps is None:
+        return
+    where = cast.where(u.fn(fn))
+    bad = None
+    nget = 0
+    for p in ps:
+        gets = [e for e in p.calls() if e.name in ('source_get_octet', 'source_get_chunk', 'source_get_chunk_atmost')]
+        for e in gets:
+            nget += 1
+            if e.name == 'source_get_octet' or e.name == 'source_get_chunk_atmost':
+                bad = bad or ('the decoder reads through %s (%s), which hands a driver answer of 0 / -EINTR / -EAGAIN through: an octet never delivered is used, or the value is '
+                              'abandoned after part of it was consumed; the exact-count reader source_get_chunk(source, &octet, 1) repeats the request until the octet has moved'
+                              % (e.name, e.where()))
+            elif e.name == 'source_get_chunk' and e.args[2] != C(1):
+                bad = bad or 'reads %s octets per step' % fmt(e.args[2])
+        # an error result ends the call before anything derived from the octet is stored into the result
+        for e in gets:
+            failed = any(c == ('cmp', '<', e.result, C(0)) for c in p.cond_terms())
+            if not failed or p.end != 'return':
+                continue
+            after = [st for st in p.stores() if p.effects.index(st) > p.effects.index(e) and sym.rooted_at(st.name, ('v', 'n'))]
+            if after:
+                bad = bad or ('the octet is merged into the result (%s) before the reader\'s result is tested: on a failed read an indeterminate octet is used' % after[0].where())
+    if nget == 0:
+        return ck.broken('C14.h', fn + ':reader', where, 'no read call found')
+    ck.verdict(bad is None, 'C14.h', fn + ':reader', where,
+               'octets are taken through the exact-count reader and used only after it succeeded (%d read sites on all paths)' % nget if bad is None else bad)
 
 
 def rule_c(ck, u):
